@@ -46,6 +46,22 @@ Section TotalForce.
   Definition vunit (a : vec) : vec :=
     let n := vnorm a in if nltb O zero n then vscale (one / n) a else (one, zero, zero).
 
+  (* 3x3 matrices (rows); rotation::matrix() of the optimal rotation is an input of the model *)
+  Definition mat : Type := (vec * vec * vec)%type.
+  Definition mvmul (m : mat) (v : vec) : vec := let '(r1, r2, r3) := m in (vdot r1 v, vdot r2 v, vdot r3 v).
+  Definition mtvmul (m : mat) (v : vec) : vec :=      (* transpose (= inverse rotation) times v *)
+    let '(r1, r2, r3) := m in let '(vx, vy, vz) := v in vadd (vscale vx r1) (vadd (vscale vy r2) (vscale vz r3)).
+
+  (* periodic cell (orthorhombic edges) or none; colvarproxy_system::position_distance(p1, p2): minimum image of p2 - p1 *)
+  Variable cell : option vec.
+  Definition min_image1 (L d : T) : T := d - nofZ O (nfloor O (d / L + half)) * L.
+  Definition pdist (p1 p2 : vec) : vec :=
+    let d := vsub p2 p1 in
+    match cell with
+    | None => d
+    | Some (lx, ly, lz) => let '(dx, dy, dz) := d in (min_image1 lx dx, min_image1 ly dy, min_image1 lz dz)
+    end.
+
   Definition tsum (l : list T) : T := fold_right (fun x acc => x + acc) zero l.
   Definition vsum (l : list vec) : vec := fold_right vadd vzero l.
   Definition ofnat (n : nat) : T := nofZ O (Z.of_nat n).
@@ -56,6 +72,7 @@ Section TotalForce.
   Definition fadd (F G : field) : field := fun a => vadd (F a) (G a).
   Definition fscale (s : T) (F : field) : field := fun a => vscale s (F a).
   Definition fsum (l : list field) : field := fold_right fadd fzero l.
+  Definition frot (m : mat) (F : field) : field := fun a => mvmul m (F a).   (* read_total_forces in the rotated frame *)
 
   Fixpoint memn (a : nat) (l : list nat) : bool :=
     match l with [] => false | b :: r => if Nat.eqb a b then true else memn a r end.
@@ -108,7 +125,12 @@ Section TotalForce.
     | CDihedral (g1 g2 g3 g4 : group) (onesite : bool)
     | CGyration (ids : list nat)
     | CRmsd (ids : list nat) (refs : list vec) (center : option vec)
-    | CEigenvector (ids : list nat) (refs : list vec) (evec : list vec) (center : option vec).
+    | CEigenvector (ids : list nat) (refs : list vec) (evec : list vec) (center : option vec)
+    (* the default fit of rmsd / eigenvector: centred and optimally rotated onto the reference positions.
+       rotf gives rotation::matrix() for the positions of a step and jdf the Jacobian derivative computed from the
+       derivatives of the optimal rotation: both are INPUTS of the model (not modelled), taken from the implementation *)
+    | CRmsdRot (ids : list nat) (refs : list vec) (rotf : field -> mat) (jdf : field -> T)
+    | CEigenvectorRot (ids : list nat) (refs : list vec) (evec : list vec) (rotf : field -> mat) (jdf : field -> T).
 
     (* atoms a component depends on *)
     Definition cvc_atoms (c : cvc) : list nat :=
@@ -119,6 +141,7 @@ Section TotalForce.
       | CAngle g1 g2 g3 _ => gids g1 ++ gids g2 ++ gids g3
       | CDihedral g1 g2 g3 g4 _ => gids g1 ++ gids g2 ++ gids g3 ++ gids g4
       | CGyration ids | CRmsd ids _ _ | CEigenvector ids _ _ _ => ids
+      | CRmsdRot ids _ _ _ | CEigenvectorRot ids _ _ _ _ => ids
       end.
 
     (* atoms whose total force a component reads (read_total_forces in calc_force_invgrads) *)
@@ -133,26 +156,28 @@ Section TotalForce.
       | CAngle g1 g2 g3 os => if os then gids g1 else gids g1 ++ gids g3
       | CDihedral g1 g2 g3 g4 os => if os then gids g1 else gids g1 ++ gids g4
       | CGyration ids | CRmsd ids _ _ | CEigenvector ids _ _ _ => ids
+      | CRmsdRot ids _ _ _ | CEigenvectorRot ids _ _ _ _ => ids
       end.
 
     (* ---- distance ---- *)
-    Definition dist_v (g1 g2 : group) : vec := vsub (gcom g2) (gcom g1).
+    Definition dist_v (g1 g2 : group) : vec := pdist (gcom g1) (gcom g2).
 
     (* ---- distanceZ / distanceXY geometry ---- *)
     (* axis and its norm: fixed axis as configured, or the unit vector from ref to ref2 *)
     Definition dz_axis (gr : group) (gr2 : option group) (axis : vec) : vec :=
-      match gr2 with None => axis | Some g2 => vunit (vsub (gcom g2) (gcom gr)) end.
+      match gr2 with None => axis | Some g2 => vunit (pdist (gcom gr) (gcom g2)) end.
     Definition dz_axis_norm (gr : group) (gr2 : option group) : T :=
-      match gr2 with None => one | Some g2 => vnorm (vsub (gcom g2) (gcom gr)) end.
+      match gr2 with None => one | Some g2 => vnorm (pdist (gcom gr) (gcom g2)) end.
     Definition dz_dist_v (gm gr : group) (gr2 : option group) : vec :=
       match gr2 with
-      | None => vsub (gcom gm) (gcom gr)
-      | Some g2 => vsub (gcom gm) (vscale half (vadd (gcom gr) (gcom g2)))
+      | None => pdist (gcom gr) (gcom gm)
+      (* midpoint of the references along their minimum-image vector *)
+      | Some g2 => pdist (vadd (gcom gr) (vscale half (pdist (gcom gr) (gcom g2)))) (gcom gm)
       end.
     Definition dz_value (gm gr : group) (gr2 : option group) (axis : vec) : T :=
       vdot (dz_axis gr gr2 axis) (dz_dist_v gm gr gr2).
     (* distanceXY: dist_v is always main - ref *)
-    Definition dxy_dist_v (gm gr : group) : vec := vsub (gcom gm) (gcom gr).
+    Definition dxy_dist_v (gm gr : group) : vec := pdist (gcom gr) (gcom gm).
     Definition dxy_ortho (gm gr : group) (gr2 : option group) (axis : vec) : vec :=
       let ax := dz_axis gr gr2 axis in
       let dv := dxy_dist_v gm gr in vsub dv (vscale (vdot dv ax) ax).
@@ -161,8 +186,8 @@ Section TotalForce.
 
     (* ---- angle ---- *)
     Definition deg : T := nofZ O 180 / pi.
-    Definition ang_r21 (g1 g2 : group) : vec := vsub (gcom g1) (gcom g2).
-    Definition ang_r23 (g2 g3 : group) : vec := vsub (gcom g3) (gcom g2).
+    Definition ang_r21 (g1 g2 : group) : vec := pdist (gcom g2) (gcom g1).
+    Definition ang_r23 (g2 g3 : group) : vec := pdist (gcom g2) (gcom g3).
     Definition ang_cos (g1 g2 g3 : group) : T :=
       vdot (ang_r21 g1 g2) (ang_r23 g2 g3) / (vnorm (ang_r21 g1 g2) * vnorm (ang_r23 g2 g3)).
     Definition ang_dxdr1 (g1 g2 g3 : group) : vec :=
@@ -181,7 +206,7 @@ Section TotalForce.
              (vadd (vscale (one / r21l) r21) (vscale (nneg O one * c) (vscale (one / r23l) r23))).
 
     (* ---- dihedral ---- *)
-    Definition dih_r12 (g1 g2 : group) : vec := vsub (gcom g2) (gcom g1).
+    Definition dih_r12 (g1 g2 : group) : vec := pdist (gcom g1) (gcom g2).
     Definition dih_f1 (g1 g2 g3 : group) : vec :=
       let r12 := dih_r12 g1 g2 in let r23 := dih_r12 g2 g3 in
       let A := vcross r12 r23 in vscale (deg * vnorm r23 / vnorm2 A) A.
@@ -238,6 +263,16 @@ Section TotalForce.
     (* eigenvector: the configured vector is centred at initialisation; invnorm2 = 1 / sum |e|^2 *)
     Definition eig_vec (evec : list vec) : list vec := let c := vmean evec in map (fun e => vsub e c) evec.
     Definition eig_invnorm2 (evec : list vec) : T := one / norm2_sum (eig_vec evec).
+    (* rotated frame: R (pos - cog) + cog of the reference positions *)
+    Definition rot_frame (ids : list nat) (refs : list vec) (R : mat) : list vec :=
+      let c := cog ids in let rc := vmean refs in map (fun a => vadd (mvmul R (vsub (pos a) c)) rc) ids.
+    Definition rmsdrot_diff (ids : list nat) (refs : list vec) (R : mat) : list vec := vsub_list (rot_frame ids refs R) refs.
+    Definition rmsdrot_value (ids : list nat) (refs : list vec) (R : mat) : T :=
+      nsqrt O (norm2_sum (rmsdrot_diff ids refs R) / ofnat (length ids)).
+    Definition rmsdrot_grads (ids : list nat) (refs : list vec) (R : mat) : list vec :=
+      let x := rmsdrot_value ids refs R in
+      let k := if nltb O zero x then half / (x * ofnat (length ids)) else zero in
+      map (fun d => vscale (k * two) d) (rmsdrot_diff ids refs R).
     Fixpoint dot_list (l r : list vec) : T :=
       match l, r with a :: l', b :: r' => vdot a b + dot_list l' r' | _, _ => zero end.
 
@@ -255,6 +290,8 @@ Section TotalForce.
       | CGyration ids => gyr_value ids
       | CRmsd ids refs center => rmsd_value ids refs center
       | CEigenvector ids refs evec center => dot_list (vsub_list (frame_pos ids center) refs) (eig_vec evec)
+      | CRmsdRot ids refs rotf _ => rmsdrot_value ids refs (rotf pos)
+      | CEigenvectorRot ids refs evec rotf _ => dot_list (vsub_list (rot_frame ids refs (rotf pos)) refs) (eig_vec evec)
       end.
 
     (* ------------------------------------------------------------------ forward path:
@@ -273,8 +310,8 @@ Section TotalForce.
           (* repaired gradients (/repo "fix: distanceZ with ref2 gave ref and ref2 each other's gradient"):
              dx/dref = (ref - main + x axis)/|ref2-ref|, dx/dref2 = (main - ref2 - x axis)/|ref2-ref| *)
           fadd (gapply gm ax fc)
-            (fadd (gapply gr (vscale (one / an) (vadd (vsub (gcom gr) (gcom gm)) (vscale x ax))) fc)
-                  (gapply g2 (vscale (one / an) (vsub (vsub (gcom gm) (gcom g2)) (vscale x ax))) fc))
+            (fadd (gapply gr (vscale (one / an) (vadd (pdist (gcom gm) (gcom gr)) (vscale x ax))) fc)
+                  (gapply g2 (vscale (one / an) (vsub (pdist (gcom g2) (gcom gm)) (vscale x ax))) fc))
       | CDistanceXY gm gr None axis _ =>
           let x := dxy_value gm gr None axis in
           let dvo := dxy_ortho gm gr None axis in
@@ -305,6 +342,9 @@ Section TotalForce.
       | CEigenvector ids refs evec center =>
           let g := eig_vec evec in
           fadd (aapply ids g fc) (aapply ids (fit_grads (length ids) center g) fc)
+      (* apply_colvar_force with f_ag_rotate: forces rotated back with the inverse rotation; no fit gradients *)
+      | CRmsdRot ids refs rotf _ => aapply ids (map (mtvmul (rotf pos)) (rmsdrot_grads ids refs (rotf pos))) fc
+      | CEigenvectorRot ids refs evec rotf _ => aapply ids (map (mtvmul (rotf pos)) (eig_vec evec)) fc
       end.
 
     (* ------------------------------------------------------------------ calc_force_invgrads *)
@@ -344,6 +384,11 @@ Section TotalForce.
           adot ids (rmsd_grads ids refs center) F * ofnat (length ids)
       | CEigenvector ids refs evec center =>
           adot ids (map (vscale (eig_invnorm2 evec)) (eig_vec evec)) F
+      (* read_total_forces rotates the atomic forces into the frame of the gradients *)
+      | CRmsdRot ids refs rotf _ =>
+          adot ids (rmsdrot_grads ids refs (rotf pos)) (frot (rotf pos) F) * ofnat (length ids)
+      | CEigenvectorRot ids refs evec rotf _ =>
+          adot ids (map (vscale (eig_invnorm2 evec)) (eig_vec evec)) (frot (rotf pos) F)
       end.
 
     (* ------------------------------------------------------------------ calc_Jacobian_derivative *)
@@ -363,6 +408,7 @@ Section TotalForce.
           let tr := match center with Some _ => nofZ O 3 | None => zero end in
           if nltb O zero x then (nofZ O 3 * ofnat (length ids) - one - tr - zero) / x else zero
       | CEigenvector _ _ _ _ => zero    (* no rotation: the projection is linear in the coordinates *)
+      | CRmsdRot _ _ _ jdf | CEigenvectorRot _ _ _ _ jdf => jdf pos
       end.
 
     (* ------------------------------------------------------------------ the variable *)
